@@ -1,0 +1,8 @@
+//go:build !verif
+
+// Package verifhook provides named instrumentation points for the external
+// verification harness. In normal builds Point is a no-op that inlines away.
+package verifhook
+
+// Point marks a named point in the code. No-op unless built with -tags verif.
+func Point(label string) {}
